@@ -171,8 +171,10 @@ Definition json_dec (b : base) (s : string) : res gval :=
   if String.eqb s "null" then Ok (zero_of b) else
   match b with
   | BInt _ | BUint _ =>
-      match parse_Z s with
-      | Some z => if String.eqb (print_Z z) s && in_kind b z then Ok (GInt z) else Err
+      let (neg, digits) := match s with String "-" s' => (true, s') | _ => (false, s) end in
+      match parse_N digits with
+      | Some n => let z := if neg then - n else n in
+                  if String.eqb (print_Z n) digits && in_kind b z then Ok (GInt z) else Err
       | None => Err
       end
   | BBool => if String.eqb s "true" then Ok (GBool true)
